@@ -240,7 +240,28 @@ fn case_sets(rng: &mut Rng, tier: &str) -> Case {
     let g1 = GroupSimilarity::new(StandardCombiner::FunSimAvg, CachedSimilarity::new(TableSim { table: &table, log: &log_cached }));
     let g2 = GroupSimilarity::new(StandardCombiner::FunSimMax, CachedSimilarity::new(TableSim { table: &table, log: &dummy }));
     let g3 = GroupSimilarity::new(StandardCombiner::Bma, CachedSimilarity::new(TableSim { table: &table, log: &dummy }));
-    let cached: Vec<V> = queries.iter().map(|(a, b)| three([&g1, &g2, &g3], &mk(a), &mk(b))).collect();
+    // a SECOND similarity (its own table) behind its own cache, alive at the same time as the three above and
+    // used alternately with them on the same queries: adaptors must not see each other's memo
+    let mut table2: HashMap<(u32, u32), f32> = HashMap::new();
+    for (k, v) in table.iter() {
+        // the mirrored entry, shifted: differs from `table` also when that one is symmetric
+        table2.insert((k.1, k.0), 0.25 + *v / 2.0);
+    }
+    let g4 = GroupSimilarity::new(StandardCombiner::FunSimAvg, CachedSimilarity::new(TableSim { table: &table2, log: &dummy }));
+    let mut cached: Vec<V> = vec![];
+    let mut other_cached: Vec<V> = vec![];
+    for (a, b) in queries.iter() {
+        let (sa, sb) = (mk(a), mk(b));
+        cached.push(three([&g1, &g2, &g3], &sa, &sb));
+        other_cached.push(res_bits(crate::catch(std::panic::AssertUnwindSafe(|| g4.calculate(&sa, &sb))), false));
+    }
+    let other_plain: Vec<V> = queries
+        .iter()
+        .map(|(a, b)| {
+            let (sa, sb) = (mk(a), mk(b));
+            res_bits(crate::catch(std::panic::AssertUnwindSafe(|| sa.similarity(&sb, TableSim { table: &table2, log: &dummy }, StandardCombiner::FunSimAvg))), false)
+        })
+        .collect();
     let calls: Vec<V> = log_cached.borrow().iter().map(|(a, b)| V::T(vec![n(*a), n(*b)])).collect();
     let mut tags = vec!["sets"];
     if with_modifiers {
@@ -264,9 +285,14 @@ fn case_sets(rng: &mut Rng, tier: &str) -> Case {
         vec![
             V::L(tv.into_iter().map(|(a, b, v)| V::T(vec![n(a), n(b), n(f32_bits(v))])).collect()),
             V::L(queries.iter().map(|(a, b)| V::T(vec![ln(a), ln(b)])).collect()),
+            {
+                let mut tv2: Vec<(u32, u32, f32)> = table2.iter().map(|(k, v)| (k.0, k.1, *v)).collect();
+                tv2.sort_by_key(|x| (x.0, x.1));
+                V::L(tv2.into_iter().map(|(a, b, v)| V::T(vec![n(a), n(b), n(f32_bits(v))])).collect())
+            },
         ],
     );
-    let obs = V::C("OSets", vec![V::L(plain), V::L(cached), V::L(calls)]);
+    let obs = V::C("OSets", vec![V::L(plain), V::L(cached), V::L(calls), V::L(other_plain), V::L(other_cached)]);
     Case { input, obs, tags }
 }
 
